@@ -35,8 +35,8 @@ def main():
         "engines": [
             {"name": "E1-kani", "path": "/verif/kani", "serves_properties": sorted({p for x in H.HARNESSES if x["tier"] in ("quick", "thorough") for p in x["props"] if p in CLAIMED}),
              "kind_free_text": "Kani 0.68 / CBMC 6.11 bounded model checking of the compiled crate (harness bodies compiled in-crate, symbolic inputs, unwinding assertions on); counterexamples replayed natively by /verif/replay"},
-            {"name": "E3-mirsmt", "path": "/verif/mirsmt", "serves_properties": ["C03", "C06", "C07", "C10", "C11", "C12", "C13", "C14", "C16", "C17", "C18"],
-             "kind_free_text": "MIR -> SMT-LIB for small loop-free glue that Kani cannot compile (async closures): nightly MIR dump regenerated per run, symbolic execution of the named bodies, z3 cross-checked with cvc5; a satisfiable query is confirmed by a native witness program"},
+            {"name": "E3-mirsmt", "path": "/verif/mirsmt", "serves_properties": ["C01", "C02", "C03", "C05", "C06", "C07", "C08", "C09", "C10", "C11", "C12", "C13", "C14", "C15", "C16", "C17", "C18"],
+             "kind_free_text": "MIR -> SMT-LIB for the code Kani cannot compile or finish (async coroutines, closures, iterator state machines over redb tables): nightly MIR dump regenerated per run, symbolic execution of the named bodies with callees and closures inlined, loops unrolled over modelled tables of K symbolic rows, z3 cross-checked with cvc5; a satisfiable query is confirmed by a native witness program"},
         ],
         "checks": [],
         "not_applicable": [],
